@@ -458,6 +458,63 @@ theorem makePermanent_no_panic (h : Heap) (hi : Inv h) (p : Handle) (hp : Handle
       | dead => rfl
       | temp s m => simp [hi.tempComplete id s m hsl]
 
+/-! ## An incremental sweep slice touches only its own window (the slice `[sweepIndex, sweepIndex + work)`):
+a slot outside the window keeps its state — in particular its mark — whatever the work unit, so an
+incremental cycle visits every slot once, not "every slot the remaining budget reaches". -/
+
+theorem sweep_outside_window_unchanged (h : Heap) (work id : Nat)
+    (hout : id < h.sweepIndex ∨ h.sweepIndex + work ≤ id) :
+    (sweep h work).slots[id]? = h.slots[id]? := by
+  unfold sweep
+  by_cases hq : (!h.unmarked.isEmpty) = true
+  · simp [hq]
+  · simp only [hq, Bool.false_eq_true, if_false]
+    unfold sweepWindow
+    cases hsl : h.slots[id]? with
+    | none =>
+      by_cases hge : h.sweepIndex + work ≥ h.slots.length <;>
+        simp only [hge, if_true, if_false] <;> rw [sweepSlots_getElem?, hsl] <;> rfl
+    | some sl =>
+      have hlt : id < h.slots.length := (List.getElem?_eq_some_iff.mp hsl).1
+      by_cases hge : h.sweepIndex + work ≥ h.slots.length
+      · simp only [hge, if_true]
+        rw [sweepSlots_getElem?, hsl]
+        have hd : ¬ (h.sweepIndex ≤ id ∧ id < h.slots.length) := by
+          rcases hout with h1 | h1 <;> omega
+        simp only [Nat.zero_add, Option.map_some]
+        simp [sweepSlot, hd]
+      · simp only [hge, if_false]
+        rw [sweepSlots_getElem?, hsl]
+        have hd : ¬ (h.sweepIndex ≤ id ∧ id < h.sweepIndex + work) := by
+          rcases hout with h1 | h1 <;> omega
+        simp only [Nat.zero_add, Option.map_some]
+        simp [sweepSlot, hd]
+
+/-- Inside its window a slice treats a slot exactly once: marked → unmarked, unmarked → reclaimed,
+everything else unchanged. -/
+theorem sweep_inside_window (h : Heap) (work id : Nat) (sl : Slot)
+    (hq : h.unmarked.isEmpty = true)
+    (hin : h.sweepIndex ≤ id ∧ id < h.sweepIndex + work) (hsl : h.slots[id]? = some sl) :
+    (sweep h work).slots[id]? = some (sweepSlot true sl) := by
+  have hlt : id < h.slots.length := (List.getElem?_eq_some_iff.mp hsl).1
+  unfold sweep
+  simp only [hq, Bool.not_true, Bool.false_eq_true, if_false]
+  unfold sweepWindow
+  by_cases hge : h.sweepIndex + work ≥ h.slots.length
+  · simp only [hge, if_true]
+    rw [sweepSlots_getElem?, hsl]
+    have hd : (h.sweepIndex ≤ id ∧ id < h.slots.length) := by omega
+    simp only [Nat.zero_add, Option.map_some]
+    simp [hd]
+  · simp only [hge, if_false]
+    rw [sweepSlots_getElem?, hsl]
+    have hd : (h.sweepIndex ≤ id ∧ id < h.sweepIndex + work) := by omega
+    simp only [Nat.zero_add, Option.map_some]
+    simp [hd]
+
+example : (sweep { init with slots := [.temp [1] true, .temp [2] true, .temp [3] true], sweepIndex := 1 } 1).slots
+    = [.temp [1] true, .temp [2] false, .temp [3] true] := by decide   -- only slot 1 is in the window
+
 /-! ## Ordering of handles (`Ord for PStr`): ordered collections (`BTreeSet<PStr>` of string literals,
 sorted diagnostics) identify exactly the handles that are equal. -/
 
